@@ -776,7 +776,7 @@ func main() {
 		Rule:        "case = one call of a constructor / family / transformation / view / decoder with arguments in its accepted domain; non-trivial = the returned graph has at least 2 vertices and at least one edge; distinct by case text",
 		Gen:         gen,
 		Exec:        exec,
-		CaseTimeout: 10 * time.Second,
+		CaseTimeout: 4 * time.Second,
 		MemMB:       2048,
 	})
 }
